@@ -49,6 +49,22 @@ fn four_reps<S: Sc>(d: &mut Draw) -> Outcome {
     ensure_eq!(v3(b3.rotate_vector(v)), want, "basis3-rotation", "Basis3::from(q).rotate_vector(v)");
     ensure_eq!(v3((m4 * v.extend(S::zero())).truncate()), want, "matrix4-rotation", "Matrix4::from(q) * (v,0)");
     ensure_eq!((m4 * v.extend(S::zero())).w, S::zero(), "matrix4-direction-w", "w of a rotated direction");
+    // the same rotation applied through every other entry point
+    {
+        use cgmath::{Point3, Transform};
+        let pt = Point3::from_vec(v);
+        ensure_eq!(v3(Transform::<Point3<S>>::transform_vector(&m4, v)), want, "matrix4-transform_vector", "Matrix4::from(q).transform_vector(v)");
+        ensure_eq!(v3(Transform::<Point3<S>>::transform_point(&m4, pt).to_vec()), want, "matrix4-transform_point", "Matrix4::from(q).transform_point(p)");
+        ensure_eq!(v3(Transform::<Point3<S>>::transform_vector(&m3, v)), want, "matrix3-transform_vector", "Matrix3::from(q).transform_vector(v)");
+        ensure_eq!(v3(Transform::<Point3<S>>::transform_point(&m3, pt).to_vec()), want, "matrix3-transform_point", "Matrix3::from(q).transform_point(p)");
+        ensure_eq!(v3(q.rotate_vector(v)), want, "quaternion-rotate_vector", "q.rotate_vector(v)");
+        ensure_eq!(v3(q.rotate_point(pt).to_vec()), want, "quaternion-rotate_point", "q.rotate_point(p)");
+        ensure_eq!(v3(b3.rotate_point(pt).to_vec()), want, "basis3-rotate_point", "Basis3::from(q).rotate_point(p)");
+        ensure_eq!(v3(&q * v), want, "quaternion-ref-mul", "&q * v");
+        ensure_eq!(v3(&m3 * v), want, "matrix3-ref-mul", "&Matrix3 * v");
+        ensure_eq!(v3((&m4 * v.extend(S::one())).truncate()), want, "matrix4-point-mul", "Matrix4::from(q) * (v,1)");
+        ensure_eq!((m4 * v.extend(S::one())).w, S::one(), "matrix4-point-w", "w of a rotated point");
+    }
     ensure_eq!(m3.rm(), qmat(&uq), "matrix3-table", "Matrix3::from(q) vs textbook rotation matrix");
     ensure_eq!(m4.rm(), qmat(&uq).embed(4), "matrix4-embeds-matrix3", "Matrix4::from(q) = Matrix3::from(q) embedded");
     ensure_eq!(Matrix3::from(b3), m3, "basis3-matrix", "Matrix3::from(Basis3::from(q))");
